@@ -148,11 +148,12 @@ func (p *oracle) userUID(id []byte) int {
 }
 
 type expectation struct {
-	class  string // "ok" or the refusal
-	img    []byte // expected header (accepted)
-	mods   []int  // uids of the requested moderators that exist, in order
-	name   []byte // C string of the requested name
-	parent bool   // refused because the parent is vacated / beyond the table / not a group board
+	class         string // "ok" or the refusal
+	img           []byte // expected header (accepted)
+	mods          []int  // uids of the requested moderators that exist, in order
+	name          []byte // C string of the requested name
+	parent        bool   // refused because the parent is vacated / beyond the table / not a group board
+	permAmbiguous bool   // a named moderator whose id also occurs inside another moderator\'s id
 }
 
 func (p *oracle) decide(q *request) *expectation {
@@ -170,13 +171,20 @@ func (p *oracle) decide(q *request) *expectation {
 		return e
 	}
 	parentBM := cstrOf(p.table[pk][offBM : offBM+39])
-	listed := false
+	// group operator = one of the '/'-separated ids of the parent's moderator string IS the caller's id; an id that
+	// merely occurs inside another moderator's id (repeated, overlapping, prefixed, suffixed) does not count
+	listed, lookalike := false, false
 	me := cstrOf(pad(q.user, 13))
 	for _, seg := range bytes.Split(parentBM, []byte{'/'}) {
 		if len(me) > 0 && bytes.Equal(seg, me) {
 			listed = true
+		} else if len(me) > 0 && bytes.Contains(seg, me) {
+			lookalike = true
 		}
 	}
+	// is_uBM looks at the first occurrence only: a named moderator whose id also occurs inside another moderator's
+	// id may be refused (C07: is_uBM_misses_named) - the refusing direction is recorded, not judged
+	e.permAmbiguous = listed && lookalike && q.ulevel&uint32(ptttype.PERM_BOARD) == 0
 	if q.ulevel&uint32(ptttype.PERM_BOARD) == 0 && !listed {
 		e.class = "not-permitted"
 		return e
@@ -364,6 +372,13 @@ func (p *oracle) judge(i int, line string, q *request, res string, slot int, bef
 	got := res
 	if strings.HasPrefix(res, "ok:") {
 		got = "ok"
+	}
+	if e.permAmbiguous && got == "not-permitted" {
+		p.note("lookalike-refused", "permission not judged: "+describe(q)+" refused (not-permitted) although the caller is a named moderator of the parent: its id also occurs inside another moderator's id and is_uBM looks at the first occurrence only")
+		if d := sideEffects(before, now); len(d) > 0 {
+			run.Fail(i, "refused-sideeffect", fmt.Sprintf("%s: refused (%s) but %s", what, res, strings.Join(d, "; ")))
+		}
+		return "refused:not-permitted:lookalike"
 	}
 	if e.class != "ok" {
 		if got == "ok" {
